@@ -103,6 +103,11 @@ def run(ctx):
     for ln in lines[:: max(1, len(lines) // 3)][:3]:
         ctx.sample({k: v for k, v in ln.items() if k != "oid"})
     bad = ctx.tlc_validate("Trace_C08", "Trace.cfg", [{k: v for k, v in ln.items() if k != "note"} for ln in lines])
+    ctx.selftest("Trace_C08", "Trace.cfg", [{k: v for k, v in ln.items() if k not in ('note',)} for ln in lines if ln["oid"] not in bad and (ln["outcome"] == "OK")], [
+        ("constant", lambda l: dict(l, d=[max(l["d"][0], 400000)] * 5)),
+        ("growing", lambda l: dict(l, d=[10 ** (i + 3) for i in range(5)])),
+        ("short", lambda l: dict(l, d=l["d"][:4])),
+        ("finite", lambda l: dict(l, finite=False))])
     by = {ln["oid"]: ln for ln in lines}
     for oid, clause in bad.items():
         ln = by[oid]
